@@ -55,6 +55,10 @@ func generatedName(n string) bool {
 }
 
 type oGen struct {
+	helpers  map[string]*ast.FuncDecl // receiver-less functions of the package that are not members of a family
+	emitted  map[string]bool          // helpers already defined in the output
+	explicit map[string][]string      // helper -> its reflected type parameters, in declaration order
+	out      *strings.Builder
 	mode     string
 	variadic map[string]bool     // generated functions with a trailing ...T parameter
 	structs  map[string][]string // shapeN -> field names in declaration order
@@ -159,6 +163,10 @@ func (f *oFun) mapType(e ast.Expr) string {
 		return "(" + strings.Join(append(ps, "res ("+strings.Join(rs, " * ")+")"), " -> ") + ")"
 	case *ast.Ellipsis:
 		return "(list " + f.mapType(t.Elt) + ")"
+	case *ast.ArrayType:
+		if t.Len == nil {
+			return "(list " + f.mapType(t.Elt) + ")"
+		}
 	}
 	fail(e.Pos(), "parameter type %T", e)
 	return ""
@@ -299,6 +307,27 @@ func (f *oFun) callee(e ast.Expr) (head string, variadic bool) {
 		fail(e.Pos(), "callee %T", e)
 	}
 	short := strings.TrimPrefix(name, "hseq.")
+	if hd, ok := f.g.helpers[name]; ok && !generatedName(short) && preludeNames[name] == "" {
+		// a private helper of the package: defined (once) in front of its first caller; the type parameters it
+		// reflects on are those of the caller that bear the same name (the call leaves them to inference)
+		if !f.g.emitted[name] {
+			f.g.emitted[name] = true
+			f.g.function(f.g.out, hd)
+		}
+		if len(tyargs) == 0 {
+			for _, tp := range f.g.explicit[name] {
+				if !f.explicit[tp] {
+					fail(e.Pos(), "helper %s reflects on type parameter %s, which the caller does not", name, tp)
+				}
+				tyargs = append(tyargs, "t"+tp)
+			}
+		}
+		head = name
+		if len(tyargs) > 0 {
+			head += " " + strings.Join(tyargs, " ")
+		}
+		return head, f.g.variadic[name]
+	}
 	if generatedName(short) {
 		head = short
 		variadic = f.g.variadic[short] || reProductN.MatchString(short) || reSpectrumN.MatchString(short) || reForShapeN.MatchString(short)
@@ -548,6 +577,23 @@ func (f *oFun) block(stmts []ast.Stmt, final *string, indent string) string {
 			}
 			f.declared[vs.Names[0].Name] = true
 		case *ast.IfStmt:
+			if st.Init == nil && st.Else == nil && final == nil && !last && endsInReturn(st.Body) {
+				// `if c { ..; return x }; rest` is `if c then .. x else rest`
+				var cb []string
+				c := f.expr(st.Cond, &cb)
+				if len(cb) > 0 {
+					fail(s.Pos(), "condition with calls")
+				}
+				saved := map[string]bool{}
+				for k, v := range f.vars {
+					saved[k] = v
+				}
+				b1 := f.block(st.Body.List, nil, indent+"    ")
+				f.vars = saved
+				b2 := f.block(stmts[i+1:], nil, indent+"    ")
+				lines = append(lines, fmt.Sprintf("%sif %s then\n%s\n%s  else\n%s", indent, c, b1, indent, b2))
+				return strings.Join(lines, "\n")
+			}
 			if st.Init != nil || st.Else == nil {
 				fail(s.Pos(), "if statement with an init clause or without else")
 			}
@@ -575,6 +621,14 @@ func (f *oFun) block(stmts []ast.Stmt, final *string, indent string) string {
 	}
 	fail(f.fd.Pos(), "%s: block without a final value", f.fd.Name.Name)
 	return ""
+}
+
+func endsInReturn(b *ast.BlockStmt) bool {
+	if len(b.List) == 0 {
+		return false
+	}
+	_, ok := b.List[len(b.List)-1].(*ast.ReturnStmt)
+	return ok
 }
 
 func assignedVar(b *ast.BlockStmt) string {
@@ -637,9 +691,22 @@ func (g *oGen) function(out *strings.Builder, fd *ast.FuncDecl) string {
 	if fd.Type.Results == nil || len(fd.Type.Results.List) == 0 {
 		fail(fd.Pos(), "%s: no result", name)
 	}
+	g.explicit[name] = exp2names(exp)
 	body := f.block(fd.Body.List, nil, "  ")
-	fmt.Fprintf(out, "Definition %s %s :=\n%s.\n\n", name, strings.Join(hdr, " "), body)
+	fmt.Fprintf(out, "Definition %s %s :=\n%s.\n", name, strings.Join(hdr, " "), body)
+	if g.helpers[name] != nil && fd.Recv == nil {
+		fmt.Fprintf(out, "#[export] Hint Unfold %s : golem_helpers.\n", name)
+	}
+	out.WriteString("\n")
 	return name
+}
+
+func exp2names(exp []string) []string {
+	var ns []string
+	for _, e := range exp {
+		ns = append(ns, strings.TrimPrefix(e, "t"))
+	}
+	return ns
 }
 
 func (g *oGen) record(out *strings.Builder, ts *ast.TypeSpec) {
@@ -670,7 +737,8 @@ func (g *oGen) record(out *strings.Builder, ts *ast.TypeSpec) {
 }
 
 func genFamily(out *strings.Builder, files []*ast.File, mode, header string, keepFunc func(fd *ast.FuncDecl) bool, keepType func(string) bool) {
-	g := &oGen{mode: mode, variadic: map[string]bool{}, structs: map[string][]string{}}
+	g := &oGen{mode: mode, variadic: map[string]bool{}, structs: map[string][]string{}, helpers: map[string]*ast.FuncDecl{},
+		emitted: map[string]bool{}, explicit: map[string][]string{}, out: out}
 	out.WriteString(header)
 	for _, f := range files {
 		for _, d := range f.Decls {
@@ -688,6 +756,14 @@ func genFamily(out *strings.Builder, files []*ast.File, mode, header string, kee
 	}
 	var fds []*ast.FuncDecl
 	for _, fd := range funcDecls(files) {
+		if !keepFunc(fd) && fd.Recv == nil && fd.Body != nil && !ast.IsExported(fd.Name.Name) {
+			g.helpers[fd.Name.Name] = fd
+			if ps := params(fd.Type.Params); len(ps) > 0 {
+				if _, ok := ps[len(ps)-1].typ.(*ast.Ellipsis); ok {
+					g.variadic[fd.Name.Name] = true
+				}
+			}
+		}
 		if keepFunc(fd) {
 			fds = append(fds, fd)
 			ps := params(fd.Type.Params)
@@ -708,7 +784,8 @@ func genFamily(out *strings.Builder, files []*ast.File, mode, header string, kee
 	fmt.Fprintf(out, "Definition functions : list string := [%s]%%string.\n", strings.Join(names, "; "))
 }
 
-const genHeader = "From Coq Require Import List String Bool Arith.\nFrom Golem Require Import Optics.GenPrelude.\n%sImport ListNotations.\nOpen Scope res_scope.\n\n"
+// private helpers of the package are hints of golem_helpers: the per-arity proofs unfold them, whatever their names are
+const genHeader = "From Coq Require Import List String Bool Arith.\nFrom Golem Require Import Optics.GenPrelude.\n%sImport ListNotations.\nOpen Scope res_scope.\nCreate HintDb golem_helpers.\n\n"
 
 func genHseq(out *strings.Builder, files []*ast.File) {
 	genFamily(out, files, "hseq",
